@@ -80,9 +80,10 @@ mutants|seeded)
           # every reported replay file must reproduce its violation in a fresh process
           nrep=0; nok=0
           for rf in $(grep '^VIOLATION' "$sc/out/$p.log" | sed 's/.*replay=//'); do
-            # violations found under an OS-decided thread schedule (native_* oracles) are
+            # violations found under an OS-decided thread schedule (native_* oracles, and the real
+            # example binary's own threads in machine_*) are
             # reported as possibly non-replayable: best effort, not required
-            case "$rf" in *native_*) continue;; esac
+            case "$rf" in *native_*|*machine_*) continue;; esac
             nrep=$((nrep+1))
             ESPADA_REPO="$sc/repo" ESPADA_SIM_TARGET="$sc/target" VERIF_OUT="$sc/out" "$HERE/check" replay "$rf" >"$sc/out/replay.log" 2>&1
             if [ $? -eq 1 ] && grep -q "reproduced key=\|VIOLATION property=C15 replay=.*send_sync" "$sc/out/replay.log"; then nok=$((nok+1)); else echo "  REPLAY DID NOT REPRODUCE: $rf"; head -3 "$sc/out/replay.log"; fi
